@@ -304,7 +304,7 @@ def login_reply(rnd, session=None):
 
 
 NAME_ALPHABETS = {"ascii": "abcXYZ 019_-", "heb": "אבגדהוזחטי ", "acc": "éàüñøß", "emoji": "😀🚀𝄞", "mixed": "aé😀א",
-                  "not-nfc": "e\u0301a\u0308\u2126\u212b\ufb01", "marks": "\u200e\u00a0~\u3000x"}
+                  "not-nfc": "e\u0301a\u0308\u2126\u212b\ufb01", "marks": "\u200e\u00a0~\u3000x", "nul-inside": "ab\0 c"}
 def rand_name(rnd):
     k = rnd.choice(list(NAME_ALPHABETS)); n = rnd.choice([0, 1, 2, 3, 8, 10, 11, 16, 17, 31, 32, 33, 40, rnd.randrange(41)])
     s = "".join(rnd.choice(NAME_ALPHABETS[k]) for _ in range(n))
@@ -425,12 +425,13 @@ def gen_irset(rnd, long_codes=False):
     toggle = rnd.random() < 0.5
     rid = rnd.choice(["ELEC7022", "ZM079055", "ZM079049", "ZM079065"]) if rnd.random() < 0.4 else rnd.choice(["DLK65863", "ELEC7001", "X1"])
     keys = []; dens = rnd.choice([0.15, 0.5, 0.95])
-    temps = sorted(rnd.sample(range(16, 31), rnd.randrange(1, 8)))
+    temps = sorted(rnd.sample(range(16, 31), rnd.randrange(1, 8))); odd_keys = rnd.random() < .2
     for mname, mc in MODES.items():
         if rnd.random() < 0.2: continue
         for pre in [""] + (["on_"] if toggle else []):
             if mname in ("AUTO", "DRY", "FAN"):
                 cands = [mc] + [f"{mc}_f{f}" for f in range(4)] + [f"{mc}_f{f}_d1" for f in range(4)]
+                if odd_keys: cands += [f"{mc}{t}" for t in temps[:2]] + [f"{mc}{t}_f{f}" for t in temps[:2] for f in (1, 3)]      # a set may hold temperature entries under these modes too: requests for them never use one
             else:
                 cands = [mc] + [f"{mc}{t}" for t in temps] + [f"{mc}{t}_f{f}" for t in temps for f in range(4)] + \
                         [f"{mc}{t}_f{f}_d1" for t in temps for f in range(4)]
@@ -445,7 +446,8 @@ def gen_irset(rnd, long_codes=False):
         n = rnd.choice([1, 5, 20, 60, rnd.randrange(1, 400)]) if not long_codes else rnd.choice([1, 7, 8, 9, 240, 247, 248, 249, 400, 1990])
         code = (k.upper().encode().hex() + "%04d" % i).upper()
         code = (code * (n // len(code) + 1))[:max(1, n)] if long_codes else code[:max(len(code) if rnd.random() < .7 else 1, n)]
-        waves.append({"Key": k, "Para": rnd.choice(["P", "NECX|26|32|15,15|15,40|15|T00BE|30|01|ABAB[30]", "R" * rnd.randrange(1, 30)]),
+        if rnd.random() < .08: code = rnd.choice([" " + code, code + " ", code + "\n", "\t" + code, " ", "\n"])          # the stored text is carried as it is, blanks at its ends included
+        waves.append({"Key": k, "Para": rnd.choice(["P", "NECX|26|32|15,15|15,40|15|T00BE|30|01|ABAB[30]", "R" * rnd.randrange(1, 30), " P", "P ", "P\r\n"]),
                       "HexCode": code})
     return {"IRSetID": rid, "OnOffType": 1 if toggle else rnd.choice([0, 0, 2]), "IRWaveList": waves}
 
@@ -627,7 +629,7 @@ async def feed_bridge(n_ports, events, raising=(), show=None, sentinel=None, ser
             seen_sentinel.add(dev.name); return
         k = len(log); log.append(show(dev))
         scribble(dev)
-        if k in raising: raise KeyError("user callback failure %d" % k)
+        if k in raising: raise [KeyError, ConnectionRefusedError, TimeoutError, ValueError, BrokenPipeError, OSError, RuntimeError][k % 7]("user callback failure %d" % k)
     bridge = SwitcherBridge(cb, list(ports)) if ports != WELL_KNOWN_PORTS else SwitcherBridge(cb)        # the default port list of the library (else: a list of its own)
     tx = socket.socket(socket.AF_INET, socket.SOCK_DGRAM)
     with warnings.catch_warnings(record=True) as w:
@@ -726,6 +728,31 @@ def zone_job(zone, job, cases, timeout=600):
                        capture_output=True, text=True, timeout=timeout, env=env)
     if p.returncode != 0: raise lib.BuildError("zone worker failed under TZ=%s: %s" % (zone, p.stderr.strip()[-300:]))
     return json.loads(p.stdout)
+
+
+def run_threads(out, stream, module, fn, calls, expected, describe, startups=64, threads=8, rounds=2, spread=True, timeout=300):
+    """harness/threadwork.py in `startups` fresh interpreters: `threads` OS threads make `calls` (the first calls of the process, then
+    `rounds` more passes, every call twice in a row); every result is compared with `expected` inside the thread that got it"""
+    import json, subprocess
+    from concurrent.futures import ThreadPoolExecutor
+    env = dict(os.environ, PYTHONPATH=lib.REPO_SRC, PYTHONHASHSEED="0")
+    payload = json.dumps({"module": module, "fn": fn, "calls": calls, "expected": expected, "threads": threads, "rounds": rounds, "spread": spread})
+    def one(k):
+        try:
+            p = subprocess.run([sys.executable, os.path.join(lib.ROOT, "harness", "threadwork.py")], input=payload, capture_output=True, text=True, timeout=timeout, env=env)
+        except subprocess.TimeoutExpired:
+            return {"bad": [{"call": None, "index": 0, "got": "never-returned (%d s)" % timeout, "expected": "an answer", "thread": -1, "round": 0, "repeat": 0}], "done": 0}
+        if p.returncode != 0: raise lib.BuildError("thread worker failed: %s" % p.stderr.strip()[-300:])
+        return json.loads(p.stdout)
+    with ThreadPoolExecutor(max_workers=min(12, os.cpu_count() or 4)) as ex: res = list(ex.map(one, range(startups)))
+    out.stream(stream, sum(r["done"] for r in res)); out.count("threads/start-ups", startups)
+    for k, r in enumerate(res):
+        for b in r["bad"]:
+            c = {"call": b["call"], "start_up": k, "thread": b["thread"], "of_threads": threads, "pass": b["round"], "repeat": b["repeat"]}
+            if len(out.failing) < 50:
+                out.failing.append({"stream": stream, "describe": describe(b["call"]) + " in thread %d of %d (pass %d of a fresh interpreter)" % (b["thread"], threads, b["round"]),
+                                    "input": c, "impl": lib.clip(b["got"]), "expected": lib.clip(b["expected"])})
+    out.judged += sum(r["done"] for r in res)
 
 
 def transitions_in(zone, lo, hi):
